@@ -17,7 +17,7 @@ EXPLANATION = (
     'properties). Every export / unexport must emit InterfacesAdded / InterfacesRemoved naming the path and interfaces. '
     'Operation selectors are finite: the solver contributes exhaustive coverage of the bounded history space.')
 BOUNDS = {'quick': 'pool of 6 paths (/, /a, /a/b, /a/bc, /a/b/c, /b); every history of <= 3 operations; queries at 7 paths x 3 kinds before, between and after the operations of each history',
-          'thorough': 'every history of <= 4 operations'}
+          'thorough': 'every history of <= 5 operations'}
 ASSUMPTIONS = ['one object class (two interfaces, one readable, one write-only property) exported at different paths',
                'unexporting a path that is not exported is API misuse and skipped']
 STUBS = ['recording connection object (sendMessage)']
@@ -29,12 +29,14 @@ NOPS = 2 * len(POOL)
 
 def obligations(tier):
     obs = []
-    kmax = 3 if tier == 'quick' else 4
+    kmax = 3 if tier == 'quick' else 5
     for k in range(1, kmax + 1):
         if k <= 2:
             prefixes = [()]
         elif k <= 4:
             prefixes = [(a,) for a in range(NOPS)]
+        elif tier == 'thorough' and k == 5:
+            prefixes = [(a, b) for a in range(NOPS) for b in range(NOPS)]
         else:
             prefixes = [(a, b) for a in range(NOPS) for b in range(NOPS)]
         for pre in prefixes:
